@@ -342,7 +342,16 @@ class DefaultScheduler(Scheduler):
                             if key not in hardware_requirements:
                                 hardware_requirements[key] = hardware
                             else:
-                                hardware_requirements[key] |= hardware
+                                # The same inner location is reached through several outer
+                                # locations: merge the storage, but do not sum cores and memory
+                                merged = hardware_requirements[key] | hardware
+                                merged.cores = max(
+                                    hardware_requirements[key].cores, hardware.cores
+                                )
+                                merged.memory = max(
+                                    hardware_requirements[key].memory, hardware.memory
+                                )
+                                hardware_requirements[key] = merged
                     valid_locations = {
                         k: loc
                         for k, loc in available_locations.items()
